@@ -93,8 +93,17 @@ def match_writes(exp_w, got) -> bool:
     return go(0, 0)
 
 
+class _FrozenClock:
+    """The receiver is driven synchronously, without a loop: the monotonic clock stands still (a time stamp kept by the
+    receiver for diagnostics then cannot differ between two runs of the same input)."""
+    _vtime = 1000.0
+
+
 def fresh(expected: int = 0):
     from bellows.ash import AshProtocol
+    from mc import vclock
+
+    vclock.set_clock(_FrozenClock)
 
     rec = Recorder()
     proto = AshProtocol(rec)
